@@ -138,6 +138,77 @@ static void ob_fill(H<T>& h, bool two_d)
     h.check("C11|integrated_result_unaffected", h.eq(res.sum(), tot) && h.truth(res.calls() == calls));
 }
 
+// several distributions on one integrand: 2-d (2 x 2), 1-d (2 bins), 2-d (2 x 1); every call adds one value to each
+template <typename T>
+struct multi_fill
+{
+    std::vector<T> const* xs; std::vector<T> const* ys; std::vector<T> const* vs; std::size_t* k;
+    T operator()(hep::mc_point<T> const&, hep::projector<T>& p) const
+    {
+        std::size_t const i = (*k)++;
+        p.add(0, xs->at(i), ys->at(i), vs->at(3 * i));
+        p.add(1, xs->at(i), vs->at(3 * i + 1));
+        p.add(2, ys->at(i), xs->at(i), vs->at(3 * i + 2));
+        return T(1.0);
+    }
+};
+
+template <typename T>
+static void ob_several(H<T>& h)
+{
+    std::size_t const N = h.get("N", 1);
+    sym::E().conv_cap = 4;
+    std::vector<T> xs, ys, vs;
+    for (std::size_t i = 0; i != N; ++i)
+    {
+        xs.push_back(h.input("x", -0.5, 1.5));
+        ys.push_back(h.input("y", -0.5, 1.5));
+        for (int q = 0; q != 3; ++q) vs.push_back(h.input("v", -1e6, 1e6));
+    }
+    std::size_t k = 0;
+    multi_fill<T> fi{&xs, &ys, &vs, &k};
+    auto integrand = hep::make_integrand<T>(fi, 1,
+        hep::distribution_parameters<T>(2, 2, T(0.0), T(1.0), T(0.0), T(1.0), "a"),
+        hep::distribution_parameters<T>(2, T(0.0), T(1.0), "b"),
+        hep::distribution_parameters<T>(2, 1, T(0.0), T(1.0), T(0.0), T(1.0), "c"));
+    auto acc = hep::make_accumulator(integrand);
+    std::vector<T> rn(1, T(0.5));
+    for (std::size_t i = 0; i != N; ++i)
+    {
+        hep::mc_point<T> const point(rn, T(1.0));
+        acc.invoke(integrand, point);
+    }
+    hep::plain_result<T> const res = acc.result(N);
+    std::size_t const want[3] = {4, 2, 2};
+    bool shape = res.distributions().size() == 3;
+    for (std::size_t dd = 0; shape && dd != 3; ++dd) shape = res.distributions()[dd].results().size() == want[dd];
+    h.check("C11|several.every_distribution_with_all_its_bins", h.truth(shape));
+    if (!shape) return;
+    // reference: half-open cells of width 1/2 on [0,1) (area 1/4 for a: 2 x 2, 1/2 for b and c)
+    auto cell = [&](T const& c, std::size_t i) { return (T(0.5) * T(i) <= c) && (c < T(0.5) * T(i + 1)); };
+    for (std::size_t dd = 0; dd != 3; ++dd)
+    {
+        std::size_t const bx = 2, by = (dd == 0) ? 2 : 1;
+        T const area = (dd == 0) ? T(0.25) : T(0.5);
+        for (std::size_t s = 0; s != bx * by; ++s)
+        {
+            std::size_t const ix = s % bx, iy = s / bx;
+            T sum = T();
+            for (std::size_t i = 0; i != N; ++i)
+            {
+                T const cx = (dd == 2) ? ys[i] : xs[i];
+                T const cy = (dd == 0) ? ys[i] : ((dd == 2) ? xs[i] : T(0.25));
+                bool inside = cell(cx, ix);
+                if (dd == 0) inside = inside && cell(cy, iy);
+                if (dd == 2) inside = inside && (T(0.0) <= cy) && (cy < T(1.0));
+                if (inside) sum += vs[3 * i + dd];
+            }
+            h.check("C11|several.each_bin_of_each_distribution_holds_its_own_values",
+                h.eq(res.distributions()[dd].results()[s].sum() * area, sum));
+        }
+    }
+}
+
 template <typename T>
 static void body(H<T>& h)
 {
@@ -145,6 +216,7 @@ static void body(H<T>& h)
     {
     case 0: ob_fill(h, false); break;
     case 1: ob_fill(h, true); break;
+    case 2: ob_several(h); break;
     }
 }
 
